@@ -659,13 +659,15 @@ let cmd_engine (ps : int) (script : string) : unit =
   let st = ref (Engine.init_db p) in
   let ops : Engine.op list ref = ref [] in
   let ord : Byte.byte list list ref = ref [] in
+  let bound : coq_N option ref = ref None in      (* id of the oldest read transaction open when the writer began *)
   let n = ref 0 and compared = ref 0 and exact = ref 0 in
   let stop = ref false in
   L.iter (fun line ->
     incr n;
     if !stop then () else
     match L.filter (fun x -> x <> "") (S.split_on_char ' ' (S.trim line)) with
-    | ["tx"] -> ops := []; ord := []
+    | ["tx"] -> ops := []; ord := []; bound := None
+    | ["tx"; b] -> ops := []; ord := []; bound := Some (num b)
     | ["T"; path] -> ops := !ops @ [Engine.Touch (path_of path)]
     | ["P"; path; k; v] -> ops := !ops @ [Engine.Put (path_of path, tok k, tok v)]
     | ["D"; path; k] -> ops := !ops @ [Engine.Del (path_of path, tok k)]
@@ -674,7 +676,7 @@ let cmd_engine (ps : int) (script : string) : unit =
     | ["rollback"] -> ops := []
     | ["reopen"] -> st := Engine.reopen_db !st
     | ["commit"; file] ->
-        (match Engine.run_tx !st !ops !ord with
+        (match (match !bound with None -> Engine.run_tx !st !ops !ord | Some b -> EngineR.run_tx_r !st b !ops !ord) with
          | Engine.Ok st' ->
              st := st';
              incr compared;
